@@ -171,6 +171,23 @@ func c05Build() {
 			{"multiUse-source", "[a,a].map(y->" + F("y") + ").multiUse({u:l->l.size(),v:l->l.size()})", ""},
 			{"cross", "[a].cross([a],(p,q)->" + F("q") + ").size()", ""},
 			{"string-concat-forces", "\"s\"+[a].map(y->" + F("y") + ")", ""},
+			// every kind of lazy stage as operand of merge / source or result of multiUse (their closures run on
+			// goroutines started by these operations)
+			{"merge-operand-number", "[a,a].number((i,y)->" + F("y") + ").merge([1,2],(p,q)->p<q).size()", ""},
+			{"merge-operand-iir", "[a,a].iir(y->" + F("y") + ",(y,l)->l).merge([1,2],(p,q)->p<q).size()", ""},
+			{"merge-operand-combine", "[a,a,a].combine((p,q)->" + F("p") + ").merge([1,2],(p,q)->p<q).size()", ""},
+			{"merge-operand-fsm", "[a,a].fsm((s,y)->goto(" + F("y") + ")).merge([1,2],(p,q)->1<2).size()", ""},
+			{"merge-second-operand-iir", "[1,2].merge([a,a].iir(y->y,(y,l)->" + F("y") + "),(p,q)->p<q).size()", ""},
+			{"multiUse-source-iir", "[a,a].iir(y->" + F("y") + ",(y,l)->l).multiUse({u:l->l.size(),v:l->l.size()})", ""},
+			{"multiUse-lazy-result", "[a,a].multiUse({u:l->l.combine((p,q)->" + F("p") + "),v:l->l.size()}).u.size()", ""},
+			{"multiUse-lazy-result-in-list", "[a,a].multiUse({u:l->[l.number((i,y)->" + F("y") + ")],v:l->l.size()}).u[0].size()", ""},
+			// closures called while a wrapped map (merged, put, replaced) is iterated; a later entry succeeds
+			{"merged-map-map", "({k:a,j:a}+{z:1}).map((k,v)->if k=\"z\" then 1 else " + F("v") + ").size()", ""},
+			{"merged-map-accept", "({k:a}+{z:1}).accept((k,v)->if k=\"z\" then true else " + F("v") + "=1).size()", ""},
+			{"put-map-map", "{k:a}.put(\"z\",1).map((k,v)->if k=\"z\" then 1 else " + F("v") + ").size()", ""},
+			{"replaced-map-map", "{k:a,z:1}.replace(m->{z:2}).map((k,v)->if k=\"z\" then 1 else " + F("v") + ").size()", ""},
+			{"evaluated-map-map", "{k:a,z:1}.eval().map((k,v)->if k=\"z\" then 1 else " + F("v") + ").size()", ""},
+			{"map-combine", "{k:a,z:1}.combine({k:1,z:2},(p,q)->if q=2 then 1 else " + F("p") + ").size()", ""},
 		}
 		if !heavy {
 			ctxs = append(ctxs,
@@ -182,7 +199,11 @@ func c05Build() {
 				[3]string{"par-merge", "numbers(40).map(y->if slow(y)>=20 then " + F("y") + " else y).merge(numbers(40).map(y->slow(y)),(p,q)->p<q).size()", "par"},
 			)
 		}
-		for _, cx := range ctxs {
+		for ci, cx := range ctxs {
+			if heavy && ci >= 14 && f[1] != "runaway-recursion" {
+				// the slow recursion shapes run in the first 14 contexts only
+				continue
+			}
 			add(c05case{src: cx[1], class: f[1], ctx: cx[0], expect: "error", par: cx[2] == "par"})
 			add(c05case{src: "try " + cx[1] + " catch \"C\"", class: f[1], ctx: "try+" + cx[0], expect: "catch", par: cx[2] == "par"})
 			add(c05case{src: "[1].map(w->try " + cx[1] + " catch \"C\").first()", class: f[1], ctx: "try-in-closure+" + cx[0], expect: "catch", par: cx[2] == "par"})
@@ -212,7 +233,7 @@ func (c05) Plan(tier string) wk.Plan {
 	}
 	return wk.Plan{
 		Level: "fault_enumeration", Cases: int64(len(c05cases)), Chunk: 100, Configs: cfgs, CaseBudget: 30, PerCase: true, HangIsViolation: true,
-		Rule:          "enumeration, not sampling: (A) every binary operator x every ordered pair of a 24-value boundary pool (ints incl. 0, -1, 64, min/max int; floats incl. 0, Inf, NaN; strings; bool; empty/mixed/lazy lists; maps; closures of arity 1-3, failing, panicking, wrong result type), both unary operators, index/member/call/if/switch on every pool value; (B) every method and function listed by GetDocumentation() at run time x argument tuples (arity <= 1 exhaustive over the pool, arity >= 2 all pairs of a 14-value sub-pool, plus no and too many arguments) x receivers per type; (C) 41 fault sources (modulo 0, negative shift, incomparable =,<,~,switch, index range, missing key, failing and panicking host function, throw, type error, wrong arity, random(0), combineN(0), iirApply without filter, empty reductions, callback of wrong type, runaway recursion plain and through map/accept/index/multiUse/merge/reduce/sprintf/string/concatenation/map string/=/~/eval/order/group/map.map) x 14 sequential contexts (top level, closures, map-field closure, sequential map/accept, reduce callback, upstream of a map, merge operand and less function, multiUse consumer and source, cross, string concatenation) + 6 forced-parallel contexts (fault at element >= 20 of a map/accept whose closure sleeps 300us: on a worker, downstream on the collector, upstream, nested, merge of parallel stages), each plain (Eval must return an error), inside try/catch (catch value must be returned) and inside try within a stage closure. Sections A and B run on one CPU; section C under every launch configuration (CPU masks x GOMAXPROCS). Refuting events: worker process dies, panic reaches the caller of Eval, no error for a fault, catch value not delivered, watchdog. Non-trivial = case whose program was executed (Generate succeeded); distinct by (configuration, program).",
+		Rule:          "enumeration, not sampling: (A) every binary operator x every ordered pair of a 24-value boundary pool (ints incl. 0, -1, 64, min/max int; floats incl. 0, Inf, NaN; strings; bool; empty/mixed/lazy lists; maps; closures of arity 1-3, failing, panicking, wrong result type), both unary operators, index/member/call/if/switch on every pool value; (B) every method and function listed by GetDocumentation() at run time x argument tuples (arity <= 1 exhaustive over the pool, arity >= 2 all pairs of a 14-value sub-pool, plus no and too many arguments) x receivers per type; (C) 41 fault sources (modulo 0, negative shift, incomparable =,<,~,switch, index range, missing key, failing and panicking host function, throw, type error, wrong arity, random(0), combineN(0), iirApply without filter, empty reductions, callback of wrong type, runaway recursion plain and through map/accept/index/multiUse/merge/reduce/sprintf/string/concatenation/map string/=/~/eval/order/group/map.map) x 28 sequential contexts (top level, closures, map-field closure, sequential map/accept, reduce callback, upstream of a map, merge operands built from map/number/iir/combine/fsm stages and the less function, multiUse consumer, source and lazy results, cross, string concatenation, closures called while merged/put/replaced/evaluated maps are iterated) + 6 forced-parallel contexts (fault at element >= 20 of a map/accept whose closure sleeps 300us: on a worker, downstream on the collector, upstream, nested, merge of parallel stages), each plain (Eval must return an error), inside try/catch (catch value must be returned) and inside try within a stage closure. Sections A and B run on one CPU; section C under every launch configuration (CPU masks x GOMAXPROCS). Refuting events: worker process dies, panic reaches the caller of Eval, no error for a fault, catch value not delivered, watchdog. Non-trivial = case whose program was executed (Generate succeeded); distinct by (configuration, program).",
 		Floor:         3000,
 		FloorCounters: map[string]int64{"faults_on_other_goroutine": 20},
 		Assumptions:   []string{"a lazy list returned to the host and forced there is outside the evaluation call; programs force their results inside (size/sum/string)", "parallel contexts rely on the dependency's timing switch (>200us per element, NumCPU>1); the evidence counts on how many goroutines faults were actually observed"},
